@@ -118,6 +118,30 @@ func (c12) Gen(r *sim.Rand, tier string, run uint64) *sim.Scenario {
 		if kind == 2 && r.Chance(1, 8) {
 			sc.Cfg["forkinhook"] = 1
 		}
+		if kind == 1 && r.Chance(1, 5) {
+			// a WDM whose opcode is the last byte of a 16-byte segment, the operand being served
+			// by another device
+			nprog := 0
+			for nprog < len(ops) && ops[nprog].K == "i" {
+				nprog++
+			}
+			k := r.Intn(nprog + 1)
+			wd := sim.Op{K: "i", B: []byte{0x42, byte(r.Intn(256))}}
+			prog := 0
+			for _, op := range ops[:k] {
+				if op.K == "i" {
+					prog += len(op.B)
+				}
+			}
+			ops = append(ops[:k], append([]sim.Op{wd}, ops[k:]...)...)
+			pc := sc.Cfg["pc"]
+			at := (pc + int64(prog)) & 0xFFFF
+			pc = (pc + (0xF-at)&0xF) & 0xFFFF
+			sc.Cfg["pc"] = pc
+			sc.Cfg["split"] = (pc + int64(prog) + 1) & 0xFFFF
+			sc.Cfg["wdm"] = 1
+			sc.Ops = ops
+		}
 		if r.Chance(1, 4) {
 			sc.Cfg["faulty"] = 1
 		}
@@ -670,8 +694,24 @@ func c12bare(sc *sim.Scenario, env *sim.Env) *sim.Violation {
 	mem.Poke(0x00FFFC, byte(pc))
 	mem.Poke(0x00FFFD, byte(pc>>8))
 	var mc *Machine
+	var splitLo uint32
+	var splitMem *SimMem
 	if sc.C("kind") == 1 {
 		mc = NewAltMachine(env, 0, mem, 0, 0)
+		if sp := uint32(sc.C("split")) & 0xFFFFF0; sp != 0 && sc.C("initfrom") == 0 {
+			// a second device, behind closures of its own, serves 4 KiB from a 16-byte boundary
+			// inside the program (right behind a WDM opcode); what the first device holds there
+			// is something else
+			second := NewSimMem(env, 1, uint64(sc.C("fillseed"))^0x5ec1)
+			second.NoLog = true
+			loadSimMem(second, sc)
+			SplitAlt(mc, second, sp)
+			for a := sp; a < sp+0x1000 && a <= 0xFFFFFF; a++ {
+				mem.Poke(a, second.Peek(a)^0xFF)
+			}
+			splitLo, splitMem = sp, second
+			st.Probe("wdm_operand_in_another_device")
+		}
 		if f := sc.C("initfrom"); f != 0 {
 			// the script runs on a copy made with InitFrom, onto a fresh or a used receiver
 			cp := &cpualt.CPU{}
@@ -825,8 +865,14 @@ func c12bare(sc *sim.Scenario, env *sim.Env) *sim.Violation {
 						return nil
 					}
 				}
-				opc := mem.Peek(fetch)
-				opd := mem.Peek(fetch&0xFF0000 | uint32(uint16(fetch)+1))
+				peek := func(a uint32) byte {
+					if splitMem != nil && a >= splitLo && a < splitLo+0x1000 {
+						return splitMem.Peek(a)
+					}
+					return mem.Peek(a)
+				}
+				opc := peek(fetch)
+				opd := peek(fetch&0xFF0000 | uint32(uint16(fetch)+1))
 				atHook := r.PCL() == cbAddr && !hasIRQ
 				stepNo++
 				stoppedBefore := stopped
